@@ -1,6 +1,9 @@
 import BycycleModel.BurstFeatures
+import Proofs.BurstFeaturesAux
 /-!
 # Helper lemmas for C05 (burst features)
+
+The proofs (and their auxiliary lemmas) are in `Proofs/BurstFeaturesAux.lean`, namespace `Bycycle.BurstAux`.
 -/
 namespace Bycycle
 
@@ -13,27 +16,38 @@ theorem ampConsistency_eq_spec (pc : Bool) (rises decays : List Rat) (hlen : ris
     ampConsistency pc .both rises decays =
       .ok ((List.range rises.length).map fun c =>
         if c = 0 ∨ c + 1 = rises.length then F.nan else ampConsSpec (flankSeq pc rises decays) c) := by
-  sorry
+  exact BurstAux.ampConsistency_eq_spec pc rises decays hlen hn
+
+/-- all three directions: the centring branches compute the centring-free directional quantity. -/
+theorem ampConsistency_dir_eq_spec (pc : Bool) (dir : Direction) (rises decays : List Rat)
+    (hlen : rises.length = decays.length) (hn : 0 < rises.length) :
+    ampConsistency pc dir rises decays =
+      .ok ((List.range rises.length).map fun c =>
+        if c = 0 ∨ c + 1 = rises.length then F.nan else ampConsSpecDir dir (flankSeq pc rises decays) c) := by
+  exact BurstAux.ampConsistency_dir_eq_spec pc dir rises decays hlen hn
+
+theorem ampConsSpecDir_both (fl : List Rat) (c : Nat) : ampConsSpecDir .both fl c = ampConsSpec fl c := by
+  exact BurstAux.ampConsSpecDir_both fl c
 
 theorem ampConsistency_empty (pc : Bool) (dir : Direction) (decays : List Rat) :
     ampConsistency pc dir [] decays = .error .indexError := by
-  sorry
+  exact BurstAux.ampConsistency_empty pc dir decays
 
 /-- the flank sequence really is the temporal sequence: cycle `c` owns entries `2c` and `2c+1`. -/
 theorem flankSeq_get (pc : Bool) (rises decays : List Rat) (c : Nat) (hc : c < rises.length) :
     (flankSeq pc rises decays).getD (2 * c) 0 = (if pc then rises.getD c 0 else decays.getD c 0) ∧
     (flankSeq pc rises decays).getD (2 * c + 1) 0 = (if pc then decays.getD c 0 else rises.getD c 0) := by
-  sorry
+  exact BurstAux.flankSeq_get pc rises decays c hc
 
 /-- with positive flank voltages the amplitude consistency lies in (0, 1]. -/
 theorem ampConsSpec_range (fl : List Rat) (c : Nat) (hc : 1 ≤ c)
     (hpos : 0 < fl.getD (2*c - 1) 0 ∧ 0 < fl.getD (2*c) 0 ∧ 0 < fl.getD (2*c + 1) 0 ∧ 0 < fl.getD (2*c + 2) 0) :
     ∃ q, ampConsSpec fl c = .fin q ∧ 0 < q ∧ q ≤ 1 := by
-  sorry
+  exact BurstAux.ampConsSpec_range fl c hc hpos
 
 /-- the clamp: never negative. -/
 theorem ampConsSpec_nonneg (fl : List Rat) (c : Nat) : (ampConsSpec fl c).neg? = false := by
-  sorry
+  exact BurstAux.ampConsSpec_nonneg fl c
 
 /-- period consistency: NaN at the ends, else the smaller min/max ratio of the period with the previous
 and with the next period. -/
@@ -43,40 +57,40 @@ theorem periodConsistency_spec (periods : List Rat) (hn : 0 < periods.length) (h
         if c = 0 ∨ c + 1 = periods.length then F.nan
         else F.fin (min (min (periods.getD c 0) (periods.getD (c - 1) 0) / max (periods.getD c 0) (periods.getD (c - 1) 0))
                         (min (periods.getD (c + 1) 0) (periods.getD c 0) / max (periods.getD (c + 1) 0) (periods.getD c 0)))) := by
-  sorry
+  exact BurstAux.periodConsistency_spec periods hn hpos
 
 theorem ratio_pos_range (a b : Rat) (ha : 0 < a) (hb : 0 < b) : 0 < min a b / max a b ∧ min a b / max a b ≤ 1 := by
-  sorry
+  exact BurstAux.ratio_pos_range a b ha hb
 
 /-- the step fractions count STRICTLY increasing / decreasing steps. -/
 theorem stepFraction_eq_spec (up : Bool) (w : List Rat) : stepFraction up w = stepFractionSpec up w := by
-  sorry
+  exact BurstAux.stepFraction_eq_spec up w
 
 theorem stepFractionSpec_range (up : Bool) (w : List Rat) (q : Rat) (h : stepFractionSpec up w = .fin q) :
     0 ≤ q ∧ q ≤ 1 := by
-  sorry
+  exact BurstAux.stepFractionSpec_range up w q h
 
 /-- monotonicity of a cycle is the mean of the two step fractions and lies in [0,1]. -/
 theorem meanF2_range (a b : F) (q : Rat) (ha : ∀ x, a = .fin x → 0 ≤ x ∧ x ≤ 1) (hb : ∀ x, b = .fin x → 0 ≤ x ∧ x ≤ 1)
     (h : meanF2 a b = .fin q) : 0 ≤ q ∧ q ≤ 1 := by
-  sorry
+  exact BurstAux.meanF2_range a b q ha hb h
 
 /-- amp_fraction: rank/n lies in (0, 1]; equal amplitudes get equal fractions; a larger amplitude a larger one. -/
 theorem ampFraction_range (xs : List Rat) (x : Rat) (hx : x ∈ xs) :
     0 < rankAvg xs x / (xs.length : Rat) ∧ rankAvg xs x / (xs.length : Rat) ≤ 1 := by
-  sorry
+  exact BurstAux.ampFraction_range xs x hx
 
 theorem rankAvg_strictMono (xs : List Rat) (x y : Rat) (hx : x ∈ xs) (hy : y ∈ xs) (h : x < y) :
     rankAvg xs x < rankAvg xs y := by
-  sorry
+  exact BurstAux.rankAvg_strictMono xs x y hx hy h
 
 /-- average rank: with `k` equal entries occupying ranks `s+1 … s+k` each gets `s + (k+1)/2`. -/
 theorem rankAvg_def (xs : List Rat) (x : Rat) :
     rankAvg xs x = ((xs.filter fun y => decide (y < x)).length : Rat) + (((xs.filter fun y => decide (y = x)).length : Rat) + 1) / 2 := by
-  sorry
+  exact BurstAux.rankAvg_def xs x
 
 theorem ampFraction_get (va : List Rat) (i : Nat) (hi : i < va.length) :
     (ampFraction va).getD i 0 = rankAvg va (va.getD i 0) / (va.length : Rat) := by
-  sorry
+  exact BurstAux.ampFraction_get va i hi
 
 end Bycycle
